@@ -65,11 +65,14 @@ class NOOP(AgentExecutingComponent) :
 
         self.advance_tasks(tasks, rps.AGENT_EXECUTING, publish=True, push=False)
 
+        to_collect = list()  # failed tasks are not collected again
+
         for task in tasks:
 
             try:
                 self._prof.prof('task_start', uid=task['uid'])
                 self._handle_task(task)
+                to_collect.append(task)
 
             except Exception as e:
                 self._log.exception("error running Task")
@@ -83,7 +86,7 @@ class NOOP(AgentExecutingComponent) :
                 self.advance_tasks(task, rps.FAILED, publish=True, push=False)
 
         with self._tasks_lock:
-            self._tasks.extend(tasks)
+            self._tasks.extend(to_collect)
 
 
     # --------------------------------------------------------------------------
